@@ -259,7 +259,7 @@ def signature(case_dec, mode):
         "kw": {k: classify(v) for k, v in case_dec["kwargs"].items()},
         "point": case_dec.get("point", "regular"),
     }
-    for k in ("bcast", "tags", "outsel", "dup", "domain"):
+    for k in ("bcast", "tags", "outsel", "dup", "domain", "layout"):
         if case_dec.get(k) is not None:
             sig[k] = case_dec[k]
     return sig
@@ -299,6 +299,22 @@ def _exc_name(e):
 SUSPECT = ("NameError", "UnboundLocalError", "AttributeError", "IndexError", "KeyError", "AssertionError", "ZeroDivisionError")
 
 
+def relayout(a, layout):
+    """Memory layout class of the differentiated argument: same values, different strides."""
+    if layout is None or not isinstance(a, onp.ndarray) or a.ndim < 1:
+        return a
+    if layout == "F":
+        return onp.asfortranarray(a)
+    if layout == "strided":
+        big = onp.zeros(tuple(2 * n for n in a.shape), dtype=a.dtype)
+        view = big[tuple(slice(None, None, 2) for _ in a.shape)]
+        view[...] = a
+        return view
+    if layout == "reversed":
+        return onp.ascontiguousarray(a[(slice(None, None, -1),) * a.ndim])[(slice(None, None, -1),) * a.ndim]
+    raise ValueError(layout)
+
+
 def prepare(case_dec, allow_empty=False):
     """Common first stage: build callables, check that NumPy accepts the call, build realified F."""
     try:
@@ -306,6 +322,14 @@ def prepare(case_dec, allow_empty=False):
         acall, _ = build(case_dec, "ag")
     except (AttributeError, ImportError) as e:
         return None, Outcome("not_judged", "no_such_function", detail=str(e)[:100])
+    layout = case_dec.get("layout")
+    if layout:
+        # the oracle perturbs x through fresh arrays: re-impose the layout on every evaluation so that both
+        # sides see the same (values, strides) class
+        ncall_, acall_ = ncall, acall
+        ncall = lambda x: ncall_(relayout(x, layout))
+        acall = lambda x: acall_(x)
+        x0 = relayout(x0, layout)
     if isinstance(x0, (int, onp.integer, bool)) or not is_float_valued(x0):
         return None, Outcome("not_judged", "nonfloat_argument")
     try:
@@ -821,6 +845,19 @@ def make_cases(pid, tier, seed):
             c["rep"] = rep
         out.extend(cs)
     out = [c for c in out if c.get("argnum") is not None and c["form"] != "special"]
+    # memory-layout class: the same configuration with the differentiated argument Fortran-ordered /
+    # a strided view / negatively strided (values identical)
+    extra = []
+    for k, c in enumerate(out):
+        if c["form"] in ("listfun", "selectfun", "indexer") or c.get("dup") or not isinstance(c["argnum"], int):
+            continue
+        a = c["args"][c["argnum"]] if c["argnum"] < len(c["args"]) else None
+        if isinstance(a, onp.ndarray) and a.ndim >= 2 and a.size > 1 and c.get("point", "regular") == "regular":
+            lay = ("F", "strided", "reversed")[k % 3]
+            c2 = dict(c)
+            c2["layout"] = lay
+            extra.append(c2)
+    out = out + extra
     if mode == "cplx":
         # gauge-dependent outputs (eigenvector / singular-vector phases) are not functions of the input
         # alone for complex data: only the gauge-free selections are judged
